@@ -888,16 +888,27 @@ def offset_labels(labels: np.ndarray, ngroups: int) -> tuple[np.ndarray, int]:
 
 def _factorize_single(by, expect, *, sort: bool, reindex: bool) -> tuple[pd.Index, np.ndarray]:
     flat = by.reshape(-1)
-    if isinstance(expect, pd.RangeIndex):
+    # integer labels are their own codes only for the range 0..n-1
+    identity_codes = (
+        isinstance(expect, pd.RangeIndex)
+        and expect.start == 0
+        and expect.step == 1
+        and flat.dtype.kind in "iu"
+    )
+    if isinstance(expect, pd.RangeIndex) and not identity_codes:
+        # look these labels up like any other index
+        expect = pd.Index(expect.to_numpy())
+    if identity_codes:
         # idx is a view of the original `by` array
         # copy here so we don't have a race condition with the
         # group_idx[nanmask] = nan_sentinel assignment later
         # this is important in shared-memory parallelism with dask
         # TODO: figure out how to avoid this
-        idx = flat.copy()
+        # codes are always intp: sentinels (-1, ngroups) and offsets do not fit narrow or unsigned labels
+        idx = flat.astype(np.intp)
         found_groups = cast(pd.Index, expect)
         # TODO: fix by using masked integers
-        idx[idx > expect[-1]] = -1
+        idx[(idx < 0) | (idx >= len(expect))] = -1
 
     elif isinstance(expect, pd.IntervalIndex):
         if expect.closed == "both":
